@@ -2,7 +2,7 @@
    Only statements closed by `exact`, each followed by Print Assumptions. *)
 From Coq Require Import ZArith List Bool.
 From MV Require Import Bvh.BvhDefs Bvh.BvhModel Bvh.BvhSmall Bvh.Sweep2Defs Bvh.Sweep2Model Bvh.Kd2Model.
-From MV Require Import Bvh.Karras3.
+From MV Require Import Bvh.Karras3 Bvh.Kd2Stack.
 Import ListNotations.
 Local Open Scope Z_scope.
 
@@ -80,8 +80,8 @@ Print Assumptions sweep_pairs_exact.
 
 (* Polygon k-d tree: QueryTwoDTree on the tree BuildTwoDTree builds from ANY
    point list reports exactly the points inside the (closed) rectangle, each as
-   often as it occurs. The explicit 64-entry stack of the C++ is modelled by
-   recursion: its depth is at most log2(n)+1 (not proved here). *)
+   often as it occurs. (Stated for the recursive form of the traversal; the
+   loop with the explicit 64-entry stack is query_stack_never_overflows below.) *)
 Theorem kd_query_exact_multiset :
   forall (points : list pt) (r : rect),
     Permutation.Permutation points (build_two_d_tree points) /\
@@ -106,3 +106,17 @@ Theorem radix_tree_wf_all : forall (n : Z) (code : Z -> Z),
               leaves t = zseq (Z.to_nat n) 0 /\ (depth t <= 64)%nat.
 Proof. exact radix_tree_wf. Qed.
 Print Assumptions radix_tree_wf_all.
+
+(* QueryTwoDTree as written in tree2d.h — a loop over three 64-entry arrays
+   (rectStack, viewStack, levelStack): for every point array of fewer than 2^64
+   points (every array a 64-bit process can hold) and every query rectangle the
+   loop terminates, its stack pointer never reaches 64 (the model returns None
+   exactly where the DEBUG_ASSERT would fail / a release build would write past
+   the arrays), and it reports the points of the recursive traversal in the
+   same order. This is the form the extracted driver runs against the C++. *)
+Theorem query_stack_never_overflows :
+  forall (points : list pt) (r : rect),
+    (Z.of_nat (length points) < 2 ^ 64)%Z ->
+    query_two_d_tree_stk points r = Some (query_two_d_tree points r).
+Proof. exact query_stack_safe. Qed.
+Print Assumptions query_stack_never_overflows.
